@@ -197,6 +197,10 @@ func splitRunTrace(res string, n int) ([]string, bool) {
 	return out, true
 }
 
+// factoryEventRe finds the factory-call and probe events of a trace (an event starts the list or
+// follows "|"; inside canonical values quotes are escaped, so `|s:"h" ` cannot occur in a string).
+var factoryEventRe = regexp.MustCompile(`(?:events:|\|)(?:s:"(?:h|ce|jsx|jsxs|jsxDEV)" |p:)`)
+
 var posRe = regexp.MustCompile(`s:"@\d+:\d+:string"`)
 
 // stripPos removes the line/column that the dev runtime received: they legitimately differ between
@@ -268,11 +272,13 @@ func moduleTrace(code string) (string, bool) {
 
 // dashGlueRe: a JSX name that ends in "-", a gap, and the start of another name (finding
 // C01-jsx-preserve-minify-dash-glue).
-var dashGlueRe = regexp.MustCompile(`-(?:\s|/\*[^*]*\*/|//[^\n]*\n)+[A-Za-z_$\x{80}-\x{10FFFF}]`)
+const jsxWS = `[\s\x0B\x{A0}\x{1680}\x{2000}-\x{200A}\x{2028}\x{2029}\x{202F}\x{205F}\x{3000}\x{FEFF}]`
+
+var dashGlueRe = regexp.MustCompile(`-(?:` + jsxWS + `|/\*[^*]*\*/|//[^\n]*\n)+[A-Za-z_$\x{80}-\x{10FFFF}]`)
 
 // braceCommentElemRe: an expression container that holds comments and then a JSX element (finding
 // C01-jsx-preserve-comment-before-element-child). Group 1 is the comment run.
-var braceCommentElemRe = regexp.MustCompile(`\{((?:\s|/\*[^*]*\*/|//[^\n]*\n)*(?:/\*[^*]*\*/|//[^\n]*)(?:\s|/\*[^*]*\*/|//[^\n]*\n)*)<`)
+var braceCommentElemRe = regexp.MustCompile(`\{((?:` + jsxWS + `|/\*[^*]*\*/|//[^\n]*\n)*(?:/\*[^*]*\*/|//[^\n]*)(?:` + jsxWS + `|/\*[^*]*\*/|//[^\n]*\n)*)<`)
 
 // blankComments overwrites the comments of a comment run with spaces, keeping every line break and the
 // UTF-16 length (the development-mode columns in the reference must stay valid).
@@ -323,6 +329,23 @@ type knownShape struct {
 }
 
 var jsxKnownShapes = []knownShape{
+	{"C01-jsx-signed-numeric-entity",
+		func(c JSXCase) bool { return c.Ref != "" && signedEntityRe.MatchString(c.Src) },
+		func(c JSXCase) JSXCase {
+			// `&#_65;` is literal text for everybody; the reference quotes the text verbatim
+			fix := func(m string) string { return strings.NewReplacer("+", "_", "-", "_").Replace(m) }
+			c.Src = signedEntityRe.ReplaceAllStringFunc(c.Src, fix)
+			c.Ref = signedEntityRe.ReplaceAllStringFunc(c.Ref, fix)
+			return c
+		}},
+	{"C01-jsx-dev-column-uffff",
+		func(c JSXCase) bool { return c.Ref != "" && c.Opts.Dev && strings.Contains(c.Src, "\uffff") },
+		func(c JSXCase) JSXCase {
+			// U+FFFE is as wide as U+FFFF in UTF-8 and in UTF-16: all line/column values stay valid
+			c.Src = strings.ReplaceAll(c.Src, "\uffff", "\ufffe")
+			c.Ref = strings.ReplaceAll(c.Ref, `\uFFFF`, `\uFFFE`)
+			return c
+		}},
 	{"C01-jsx-preserve-minify-dash-glue",
 		func(c JSXCase) bool { return c.Opts.Pre.MinifyWS && dashGlueRe.MatchString(c.Src) },
 		func(c JSXCase) JSXCase { c.Opts.Pre.MinifyWS = false; return c }},
@@ -346,7 +369,8 @@ func jsxKnownID(c JSXCase, depth int) string {
 		c2 := k.without(c)
 		if v2 := judgeJSXRaw([]JSXCase{c2})[0]; v2.Discard != "" {
 			continue
-		} else if v2.OK || (depth < 2 && jsxKnownID(c2, depth+1) != "") {
+		} else if v2.OK || (depth < 3 && jsxKnownID(c2, depth+1) != "") {
+			// (what remains is nothing, or other listed findings)
 			return k.id
 		}
 	}
@@ -358,10 +382,9 @@ func judgeJSX(cases []JSXCase) []vdrv.Verdict {
 	vs := judgeJSXRaw(cases)
 	for i, c := range cases {
 		v := &vs[i]
-		if v.OK || v.Known != "" || !strings.Contains(v.Detail, "preserve") {
+		if v.OK || v.Discard != "" {
 			continue
 		}
-		// the failure involves the preserve step
 		v.Known = jsxKnownID(c, 0)
 	}
 	return vs
@@ -442,11 +465,7 @@ func jsxVerdict(c JSXCase, r jsxRun, tr [3]string) vdrv.Verdict {
 		return vdrv.Fail("round trip through jsx=preserve changes behaviour (mode "+c.Opts.Mode+")", stripPos(t1), stripPos(t2)+"\n--- preserve output\n"+r.q)
 	}
 	if c.Ref != "" && t1 != tref {
-		v := vdrv.Fail("esbuild's "+c.Opts.Mode+" output differs from the reference desugaring", tref, t1+"\n--- output\n"+r.e1)
-		if signedEntityRe.MatchString(c.Src) {
-			v.Known = "C01-jsx-signed-numeric-entity"
-		}
-		return v
+		return vdrv.Fail("esbuild's "+c.Opts.Mode+" output differs from the reference desugaring", tref, t1+"\n--- output\n"+r.e1)
 	}
 	if c.Opts.Out.ASCII {
 		off, perr := jsutil.NonASCIIOutsideExempt(r.e1, c.Opts.needsModule(), false)
@@ -477,14 +496,18 @@ func jsxVerdict(c JSXCase, r jsxRun, tr [3]string) vdrv.Verdict {
 	if c.Opts.Out.LineLimit > 0 || c.Opts.Pre.LineLimit > 0 {
 		cls = append(cls, "linelimit")
 	}
-	// non-trivial: at least two factory calls or probes were observed (a nested element, or an element
-	// with an evaluated attribute/child), i.e. there is an order and a structure that could be wrong
-	calls := strings.Count(t1, "|") + 1
-	if !strings.Contains(t1, "events:") || strings.Contains(t1, "events: end:") {
-		calls = 0
+	// non-trivial: at least two factory calls / probes were observed (a nested element, or an element with
+	// an evaluated attribute or child: there is an order and a structure that could be wrong), or one
+	// factory call whose literal had to be decoded (a character reference or multi-line text)
+	calls := len(factoryEventRe.FindAllString(t1, -1))
+	decoded := false
+	for _, l := range c.Labels {
+		if strings.HasPrefix(l, "entity-") || l == "text-multiline" {
+			decoded = true
+		}
 	}
-	v := vdrv.Pass(calls >= 2, cls...)
-	v.Observed = fmt.Sprintf("%d events", calls)
+	v := vdrv.Pass(calls >= 2 || (calls == 1 && decoded), cls...)
+	v.Observed = fmt.Sprintf("%d factory calls and probes", calls)
 	return v
 }
 
@@ -1087,7 +1110,7 @@ func (g *jgen) tag() string {
 	return t
 }
 
-var jsxLits = []string{"1", "0", "-1.5", "1e21", `"s"`, `'q"q'`, `"é"`, `"😀 "`, `"</script>"`, "null", "undefined", "true", "false", "[1, 2]", `{ a: 1, "b-c": 2 }`, "o1",
+var jsxLits = []string{"1", "0", "-1.5", "1e21", `"s"`, `'q"q'`, `"é"`, "\"😀\u2028\"", `"</script>"`, "null", "undefined", "true", "false", "[1, 2]", `{ a: 1, "b-c": 2 }`, "o1",
 	"`t${1}é`", "/é+/gu", "10n", "() => 1", "NaN", `"a" + "ü"`, "typeof c0", `c1 ? "y" : "n"`, "(1, 2)", `"\u{1F600}"`, `"ab".length`, `"日本"`, `'\\'`, `"<!--"`, `{ π: "π" }`}
 
 func (g *jgen) lit() string {
@@ -1173,7 +1196,7 @@ func (g *jgen) entity(inText bool) string {
 	if !g.core {
 		n = 16
 	}
-	if g.signed && pct(rt, "signed", 3) {
+	if g.signed && pct(rt, "signed", 25) {
 		n = 16
 	}
 	switch k := uni(rt, "entity", n); {
@@ -1269,7 +1292,7 @@ func (g *jgen) body() string {
 	n := 1 + uni(g.rt, "words", 3)
 	for i := 0; i < n; i++ {
 		if i > 0 {
-			sb.WriteString(pick(g.rt, "sep", []string{" ", " ", "  ", " ", "   "}))
+			sb.WriteString(pick(g.rt, "sep", []string{" ", " ", "  ", "\u00a0", "   "}))
 		}
 		sb.WriteString(g.word())
 	}
@@ -1383,7 +1406,7 @@ func (g *jgen) gap(beforeSpread bool) string {
 	if g.core {
 		return pick(rt, "gap", []string{" ", " ", " ", "  ", "\n", "\n  ", "\r\n\t", "\t"})
 	}
-	s := pick(rt, "gap", []string{" ", " ", "\n  ", " /* c */ ", " // é c\n ", "/* é */ ", " /**/", " ", " ", ""})
+	s := pick(rt, "gap", []string{" ", " ", "\n  ", " /* c */ ", " // é c\n ", "/* é */ ", " /**/", "\u00a0", "\u2028", ""})
 	if s == "" && !beforeSpread {
 		s = " "
 	}
@@ -1535,10 +1558,7 @@ func (g *jgen) kids(depth int) []jkid {
 			g.label("child-spread")
 		default:
 			k.kind = kExpr
-			k.pre, k.post = g.braceWS(), ""
-			if !strings.Contains(k.pre, "//") || true {
-				k.post = g.braceWS()
-			}
+			k.pre, k.post = g.braceWS(), g.braceWS()
 			k.x = g.expr(depth)
 			g.label("child-expr")
 		}
@@ -1558,9 +1578,6 @@ func (g *jgen) elem(depth int) *jel {
 		e.tag = g.tag()
 		e.attrs = g.attrs()
 		e.endGap = pick(rt, "endgap", []string{"", "", " ", "\n"})
-		if len(e.attrs) > 0 && e.attrs[len(e.attrs)-1].kind == aBool && e.endGap == "" {
-			// `<a b/>` is fine, nothing to do
-		}
 	}
 	e.kids = g.kids(depth)
 	if len(e.kids) == 0 && !e.frag {
@@ -1596,7 +1613,7 @@ func (g *jgen) program(nroots int, mode refMode) (src, ref string) {
 	}
 	var b strings.Builder
 	if pct(rt, "leading", 20) {
-		b.WriteString(pick(rt, "leadtext", []string{"// é 😀\n", "\r\n", "/* 𝒳 */ ", "\n\n  ", " "}))
+		b.WriteString(pick(rt, "leadtext", []string{"// é 😀\n", "\r\n", "/* 𝒳 */ ", "\n\n  ", "\u2028"}))
 	}
 	for _, s := range stmts {
 		b.WriteString(s.pre)
@@ -1631,11 +1648,11 @@ func drawJSXOpts(rt *rapid.T) JSXOpts {
 		o.Out.Format = pick(rt, "format", []string{"", "", "esm", "cjs", "iife"})
 	case 2, 3:
 		o.Mode = "automatic"
-		o.Out.Format = pick(rt, "format", []string{"cjs", "cjs", "cjs", "cjs", "iife", "iife", "iife", "iife", "esm", ""})
+		o.Out.Format = pick(rt, "format", []string{"cjs", "cjs", "cjs", "cjs", "cjs", "iife", "iife", "iife", "iife", "iife", "iife", "esm", "", "cjs", "cjs", "iife"})
 	default:
 		o.Mode = "automatic"
 		o.Dev = true
-		o.Out.Format = pick(rt, "format", []string{"cjs", "cjs", "cjs", "cjs", "iife", "iife", "iife", "iife", "esm", ""})
+		o.Out.Format = pick(rt, "format", []string{"cjs", "cjs", "cjs", "cjs", "cjs", "iife", "iife", "iife", "iife", "iife", "iife", "esm", "", "cjs", "cjs", "iife"})
 	}
 	if o.Mode == "automatic" {
 		o.ImportSource = pick(rt, "importsource", []string{"", "", "preact", "@scope/lib"})
@@ -1672,7 +1689,7 @@ func genJSXCase(rt *rapid.T, lit bool) JSXCase {
 	var c JSXCase
 	if lit {
 		g.core = true
-		g.signed = true
+		g.signed = pct(rt, "signedcase", 2)
 		c.Src, c.Ref = g.litProgram(mode)
 	} else {
 		g.core = pct(rt, "core", 60)
@@ -1731,7 +1748,7 @@ func (g *jgen) litProgram(mode refMode) (string, string) {
 	return src, rb.String()
 }
 
-const jsxBatch = 6
+const jsxBatch = 10
 
 func runJSXSub(t *testing.T, sub string, lit bool, quick, thorough int) {
 	H.SetupRapid(sub, (H.N(quick, thorough)+jsxBatch-1)/jsxBatch)
@@ -1748,11 +1765,11 @@ func runJSXSub(t *testing.T, sub string, lit bool, quick, thorough int) {
 }
 
 func runJSXRT(t *testing.T) {
-	H.Rule("jsxrt", "rapid (uniform draws): JSX programs of 1-2 root expressions, element trees to depth 4 over string/dashed/namespaced/component/member/non-ASCII tags and fragments; attributes: string (either quote, entities, </script>, braces, U+2028, non-ASCII), {expr}, shorthand, spread (plain, with key inside, with a logging getter, probed), element-valued, dashed/namespaced/reserved-word/non-ASCII names, key before/after spread; children: text (multi-line, entities of every kind incl. near misses), {expr} (probes p(id,v), conditionals, arrays, map callbacks, arrow calls, comma, objects, templates), nested elements, {} and comment-only braces; 40% non-core cases add tabs/exotic white space/U+2028 in text, newlines in string attributes, out-of-range and white-space references, spread children, __proto__/children attributes, comments inside tags and braces. Modes classic (3 factories) / automatic / automatic+development × import source × format × platform × charset × minify-whitespace × line-limit. Oracles: (A) esbuild(preserve(P)) ≡ esbuild(P) under V8 with logging factories, preserve step with its own drawn charset/minify/line-limit; (B, core cases) the reference desugaring written from the React/JSX conventions, incl. jsx vs jsxs, key as third argument, createElement fallback for key after spread, children in props, development line/column; charset=ascii ⇒ ASCII-only output. Non-trivial = at least two factory calls/probes observed")
-	runJSXSub(t, "jsxrt", false, 14000, 600000)
+	H.Rule("jsxrt", "rapid (uniform draws): JSX programs of 1-2 root expressions, element trees to depth 4 over string/dashed/namespaced/component/member/non-ASCII tags and fragments; attributes: string (either quote, entities, </script>, braces, U+2028, non-ASCII), {expr}, shorthand, spread (plain, with key inside, with a logging getter, probed), element-valued, dashed/namespaced/reserved-word/non-ASCII names, key before/after spread; children: text (multi-line, entities of every kind incl. near misses), {expr} (probes p(id,v), conditionals, arrays, map callbacks, arrow calls, comma, objects, templates), nested elements, {} and comment-only braces; 40% non-core cases add tabs/exotic white space/U+2028 in text, newlines in string attributes, out-of-range and white-space references, spread children, __proto__/children attributes, comments inside tags and braces. Modes classic (3 factories) / automatic / automatic+development × import source × format × platform × charset × minify-whitespace × line-limit. Oracles: (A) esbuild(preserve(P)) ≡ esbuild(P) under V8 with logging factories, preserve step with its own drawn charset/minify/line-limit; (B, core cases) the reference desugaring written from the React/JSX conventions, incl. jsx vs jsxs, key as third argument, createElement fallback for key after spread, children in props, development line/column; charset=ascii ⇒ ASCII-only output. Non-trivial = at least two factory calls/probes observed, or one factory call that received a literal containing a character reference or multi-line text")
+	runJSXSub(t, "jsxrt", false, 8000, 600000)
 }
 
 func runJSXLit(t *testing.T) {
-	H.Rule("jsxlit", "rapid (uniform draws): 1-3 elements whose string attributes (either quote) and text children consist of hostile pieces: named (all 253)/decimal/hex/zero-padded/upper-case references, surrogate halves, unknown names, near misses (&amp ;, &#x;, &#65a;, &#X41; …), missing semicolons, astral and non-ASCII characters, U+2028/9, quotes, backslashes, </script>, <!--, braces in attributes, multi-line text with indentation; the value received by the factory is compared with an independent decoder (HTML 4.01 table + JSX white-space rule); charset=ascii ⇒ ASCII-only output; round trip through preserve as in jsxrt. Signed references (&#+65;) are a listed finding. Non-trivial = at least two factory calls")
-	runJSXSub(t, "jsxlit", true, 10000, 400000)
+	H.Rule("jsxlit", "rapid (uniform draws): 1-3 elements whose string attributes (either quote) and text children consist of hostile pieces: named (all 253)/decimal/hex/zero-padded/upper-case references, surrogate halves, unknown names, near misses (&amp ;, &#x;, &#65a;, &#X41; …), missing semicolons, astral and non-ASCII characters, U+2028/9, quotes, backslashes, </script>, <!--, braces in attributes, multi-line text with indentation; the value received by the factory is compared with an independent decoder (HTML 4.01 table + JSX white-space rule); charset=ascii ⇒ ASCII-only output; round trip through preserve as in jsxrt. Signed references (&#+65;, 2% of the cases) are a listed finding. Non-trivial = at least two factory calls, or one that received a literal containing a character reference or multi-line text")
+	runJSXSub(t, "jsxlit", true, 6000, 400000)
 }
